@@ -9,6 +9,7 @@ import (
 	"os"
 	"sort"
 	"strings"
+	"sync/atomic"
 
 	"github.com/Shopify/sarama"
 
@@ -48,8 +49,8 @@ func judgeProd(prop string, res *prodResult) proto.Rec {
 	rec.Obs["partition_batches_at_cluster"] = int64(len(res.produced))
 	rec.Obs["faults_consumed"] = int64(res.faultsUsed)
 	for _, r := range res.rules {
-		rec.Obs["plans_fired"] += int64(r.Fired)
-		rec.Obs["plans_satisfied"] += int64(r.Satisfied)
+		rec.Obs["plans_fired"] += int64(atomic.LoadInt32(&r.Fired))
+		rec.Obs["plans_satisfied"] += int64(atomic.LoadInt32(&r.Satisfied))
 	}
 	for _, ev := range res.hooks {
 		rec.Obs["hook:"+ev.Point]++
